@@ -5,6 +5,8 @@ package main
 
 import (
 	"fmt"
+	"github.com/goghcrow/yae/val"
+	"time"
 
 	"github.com/goghcrow/yae/types"
 )
@@ -19,7 +21,10 @@ type evalCase struct {
 // judgeBackends runs one program on the four back ends and applies the property's predicate:
 // equal values or all fail alike, same host-call trace; the VM may refuse at compile time for capacity.
 func judgeBackends(r *Run, c evalCase, vars []envVar) (outs []outcome, accepted bool) {
-	vals := stdValues()
+	return judgeBackendsWith(r, c, vars, stdValues())
+}
+
+func judgeBackendsWith(r *Run, c evalCase, vars []envVar, vals map[string]*val.Val) (outs []outcome, accepted bool) {
 	outs = make([]outcome, len(backends))
 	for i, b := range backends {
 		outs[i] = runOn(b, c.src, vars, vals, c.withFns)
@@ -86,6 +91,47 @@ func runC03(r *Run) {
 	for _, c := range corpus {
 		judgeBackends(r, c, vars)
 		r.Sample(c.src)
+	}
+	// host times denoting the same instants in other locations (time.Time carries a location and possibly a monotonic
+	// reading; == on the struct is not equality of instants). Only comparisons: renderings of such values are outside the
+	// model (DESIGN.md section 8).
+	{
+		zvars := append(append([]envVar{}, vars...), envVar{"tz0", ttime()}, envVar{"tz1", ttime()})
+		zvals := stdValues()
+		zvals["tz0"] = val.Time(t0v.In(time.FixedZone("X", 3600)))
+		zvals["tz1"] = val.Time(t1v.UTC())
+		names := []string{"t0", "tz0", "t1", "tz1"}
+		for _, a := range names {
+			for _, b := range names {
+				for _, op := range []string{"==", "!=", "<", "<=", ">", ">="} {
+					for _, tpl := range []string{"%s %s %s", "if(%s %s %s, 1, 2)", "(%s %s %s) || f"} {
+						judgeBackendsWith(r, evalCase{fmt.Sprintf(tpl, a, op, b), false}, zvars, zvals)
+					}
+				}
+				for _, tpl := range []string{"[%s] == [%s]", "[%s] != [%s]", `["k": %s] == ["k": %s]`, "get([%s], 0, %s) == t0", "{a: %s} == {a: %s}", "get(mz, 1) + if(%s == %s, 1, 2)"} {
+					judgeBackendsWith(r, evalCase{fmt.Sprintf(tpl, a, b), false}, zvars, zvals)
+				}
+				r.Count("host-times-other-zone pairs")
+			}
+		}
+	}
+	// short-circuit forms with literal operands next to tracing and failing calls (peephole territory)
+	for _, l := range []string{`tr(1) > 0`, `trb(b)`, `m["zz"] > 0`, `boom(1) > 0`, `[trb(f)][0]`} {
+		for _, tpl := range []string{"%s && false", "%s && true", "%s || true", "%s || false", "false && %s", "true || %s", "if(%s, true, true)", "if(%s, false, false)", "if(%s, 1, 1)",
+			"[tr(1), if(%s, false, false), tr(3)]", "!(%s)", "!(%s) && false", "(%s) == true", "if(true, %s, false)", "not(%s) or true"} {
+			judgeBackends(r, evalCase{fmt.Sprintf(tpl, l), true}, vars)
+		}
+	}
+	{
+		var ks []int
+		for k := 0; k <= 44; k++ {
+			ks = append(ks, k)
+		}
+		ks = append(ks, 84, 85, 86, 127, 128, 170, 255, 256, 257)
+		for _, src := range poolSweep(ks, sweepTails[:10]) {
+			judgeBackends(r, evalCase{src, false}, vars)
+			r.Count("pool-sweep programs")
+		}
 	}
 	n := 1200
 	if r.Tier == "thorough" {
